@@ -225,6 +225,52 @@ def call_error_unit(ctx):
         ctx.check("create_chained_call_error:the-exception's-own-cause-is-left-alone", bool(chained.__cause__ is prior))
     ne = errors.NodeError(node)
     ctx.check("NodeError(node).node-is-the-node", bool(ne.node is node))
+    if k == 0:
+        # the message is a function of THIS call's own frame chain: two calls created by the same line (same name, path, line of the innermost
+        # frame) reached through different callers, errors built one after the other (nothing may be remembered from the first)
+        import importlib
+
+        tb = importlib.import_module("uberjob._util.traceback")
+
+        def mk(callers, truncated):
+            sf = tb.TruncatedStackFrame if truncated else None
+            for name, line in reversed(callers):
+                sf = tb.StackFrame(name=name, path="/user/app.py", line=line, outer=sf)
+            return tb.StackFrame(name="helper", path="/user/lib.py", line=12, outer=sf)
+
+        def frames_of(sf):
+            rows = []
+            while sf is not None and sf is not tb.TruncatedStackFrame:
+                rows.append((sf.name, sf.path, sf.line))
+                sf = sf.outer
+            return rows[::-1], sf is tb.TruncatedStackFrame
+
+        def conforms(msg, sf):
+            """format-agnostic reading of 'lists those frames outermost first': one line per frame naming its path, line number and function, in
+            that order of lines; no line about a function that is not in this chain; the truncation marker iff the chain is truncated"""
+            want, trunc = frames_of(sf)
+            lines = msg.splitlines()
+            pos = -1
+            for name, path, line in want:
+                nxt = next((i for i in range(pos + 1, len(lines)) if name in lines[i] and path in lines[i] and str(line) in lines[i]), None)
+                if nxt is None:
+                    return False
+                pos = nxt
+            foreign = {"build_report", "build_export", "main", "helper"} - {n for n, _, _ in want}
+            if any(w in ln for w in foreign for ln in lines):
+                return False
+            return ("truncated" in msg) == trunc and util.fully_qualified_name(fn) in msg
+
+        chains = [mk([("build_report", 29), ("main", 69)], False), mk([("build_export", 34), ("main", 71)], False), mk([("build_report", 29)], True),
+                  mk([], False), mk([("build_report", 29), ("main", 69)], False)]
+        bad = []
+        for i, sf in enumerate(chains):
+            c = graph.Call(fn, stack_frame=sf)
+            got = str(errors.CallError(c))
+            if not conforms(got, sf):
+                bad.append((i, got, frames_of(sf)))
+        ctx.check("CallError-message-names-the-function-and-lists-this-call's-own-frames-outermost-first(nothing-remembered-from-errors-built-before)", bool(not bad),
+                  info=repr(bad[:1]), props=["C19"])
     return "ok"
 
 
